@@ -36,6 +36,11 @@ def make_recorders(tl, n_inst, n_mw, with_tracer, valued=False):
         def __init__(self, i):
             self.i = i
 
+        def __len__(self):
+            # a recorder is also a sized container of what it has recorded for its caller - nothing, when `valued`: an
+            # instrumentation is what the caller passed, whatever its truth value
+            return 0 if valued else 1
+
         def on_query_start(self):
             tl.append(("Q+", self.i))
 
